@@ -63,12 +63,6 @@ Fixpoint s_history (ss : sstate) (h : list form) : sstate * list outcome :=
   | x :: h' => let o := s_outcome (ss_decls ss) x in
                let '(ss', os) := s_history (if form_ok (ss_decls ss) x then sstep ss x else ss) h' in (ss', o :: os)
   end.
-(* forms that name vanilla-flavor itself are outside the specification (never generated) *)
-Definition names_vanilla (x : form) : bool :=
-  match x with
-  | DFlavor f _ comps _ _ _ => (f =? vanilla) || existsb (fun c => c =? vanilla) comps
-  | DMethod f _ _ _ _ => f =? vanilla
-  end.
 
 Definition fobs_violates (ss : sstate) (o : fobs) : bool :=
   let ds := ss_decls ss in let f := o_f o in
